@@ -1165,6 +1165,16 @@ class Interp:
                 hi = (v2 | (unk & ~sb))                    # most positive: sign clear, other unknown bits set
         else:
             lo, hi = lo_p, hi_p
+        # the operands' intervals bound the result as well (OR never decreases, AND never increases a non-negative value)
+        la_, ha_ = st.itv[a.vid]
+        lb_, hb_ = st.itv[b.vid]
+        if la_ >= 0 and lb_ >= 0:
+            if base == "BitOr":
+                lo = max(lo, la_, lb_)
+            elif base == "BitAnd":
+                hi = min(hi, ha_, hb_)
+            if lo > hi:
+                lo, hi = lo_p, hi_p
         z = self.ctx.mk_int(st, lo, hi, rty, taint=taint)
         if m2 != allb:
             st.prov[z.vid] = ("kbits", (), (m2, v2))
